@@ -283,6 +283,16 @@ def _identity(value: T) -> T:
     return value
 
 
+def _default_parse_literal(node: _ScalarValueNode, _variables: Any) -> Any:
+    # Number literals carry their source text, convert them so a literal and
+    # the equivalent JSON variable yield the same value.
+    if isinstance(node, _ast.IntValue):
+        return int(node.value, 10)
+    elif isinstance(node, _ast.FloatValue):
+        return float(node.value)
+    return node.value
+
+
 def default_scalar(
     name: str,
     description: Optional[str] = None,
@@ -301,7 +311,7 @@ def default_scalar(
         name,
         serialize=_identity,
         parse=_identity,
-        parse_literal=lambda node, _: node.value,
+        parse_literal=_default_parse_literal,
         description=description,
         nodes=nodes,
     )
